@@ -4,6 +4,7 @@ package main
 
 import (
 	"fmt"
+	"go/token"
 	"go/types"
 	"os"
 	"sort"
@@ -193,4 +194,196 @@ func checkC06(c *Ctx, r *Result, tier string) {
 	r.Extra["reviewed_entries"] = len(c06Reviewed)
 	r.Extra["reviewed_entries_unused"] = stale
 	r.Floor("C06-obligations", nObl, 300)
+	c06EmbeddedNil(c, r)
+}
+
+// ---- R06-embednil: embedded pointers of error values are never nil ------------------------------
+
+// Error values that embed *RuntimeError get their Error() (and every promoted field access,
+// e.g. rtError.Type in the try runtime and in addEventAndWait) from the embedded pointer: a nil
+// embedded pointer is a nil dereference at the first use. The invariant "embedded pointer fields
+// of module struct types that implement error through promotion are non-nil" is inductive:
+// checked at every store into such a field, assuming it for loads of such fields.
+func c06EmbeddedNil(c *Ctx, r *Result) {
+	errT := types.Universe.Lookup("error").Type().Underlying().(*types.Interface)
+	isEmbErrField := func(fa *ssa.FieldAddr) bool {
+		st, ok := derefType(fa.X.Type()).Underlying().(*types.Struct)
+		if !ok || fa.Field >= st.NumFields() {
+			return false
+		}
+		f := st.Field(fa.Field)
+		if !f.Embedded() {
+			return false
+		}
+		p, ok := f.Type().(*types.Pointer)
+		if !ok || !types.Implements(p, errT) {
+			return false
+		}
+		owner := namedOf(fa.X.Type())
+		return owner != nil && owner.Obj().Pkg() != nil && strings.HasPrefix(owner.Obj().Pkg().Path(), modPath)
+	}
+	// functions whose (single / first) result is never nil
+	nonNilRet := map[*ssa.Function]int{}
+	var retNonNil func(fn *ssa.Function, idx int) bool
+	var localNonNil func(v ssa.Value, d int) bool
+	localNonNil = func(v ssa.Value, d int) bool {
+		if d > 8 {
+			return false
+		}
+		switch x := unspill(v).(type) {
+		case *ssa.Alloc, *ssa.FieldAddr, *ssa.IndexAddr, *ssa.MakeInterface, *ssa.MakeMap, *ssa.MakeSlice, *ssa.MakeClosure, *ssa.Function, *ssa.Global:
+			_ = x
+			return true
+		case *ssa.Const:
+			return x.Value != nil
+		case *ssa.Phi:
+			for _, e := range x.Edges {
+				if !localNonNil(e, d+1) {
+					return false
+				}
+			}
+			return true
+		case *ssa.TypeAssert:
+			return !x.CommaOk && localNonNil(x.X, d+1)
+		case *ssa.Call:
+			switch callName(x) {
+			case "fmt.Errorf", "errors.New":
+				return true
+			}
+			cs := c.Callees(x)
+			if len(cs) == 0 {
+				return false
+			}
+			for _, f := range cs {
+				if !retNonNil(f, 0) {
+					return false
+				}
+			}
+			return true
+		case *ssa.UnOp:
+			if fa, ok := x.X.(*ssa.FieldAddr); ok && x.Op == token.MUL && isEmbErrField(fa) {
+				return true // the invariant
+			}
+		}
+		return false
+	}
+	retNonNil = func(fn *ssa.Function, idx int) bool {
+		switch nonNilRet[fn] {
+		case 1, 2:
+			return true
+		case 3:
+			return false
+		}
+		if len(fn.Blocks) == 0 {
+			nonNilRet[fn] = 3
+			return false
+		}
+		nonNilRet[fn] = 1
+		ok := true
+		rvs := returnedValues(fn, idx)
+		if len(rvs) == 0 {
+			ok = false
+		}
+		for _, rv := range rvs {
+			if !localNonNil(rv, 0) {
+				ok = false
+			}
+		}
+		if ok {
+			nonNilRet[fn] = 2
+		} else {
+			nonNilRet[fn] = 3
+		}
+		return ok
+	}
+	n := 0
+	for _, fn := range c.ModFuncs() {
+		var stores []*ssa.Store
+		allInstrs(fn, func(in ssa.Instruction) {
+			if st, ok := in.(*ssa.Store); ok {
+				if fa, ok := st.Addr.(*ssa.FieldAddr); ok && isEmbErrField(fa) {
+					stores = append(stores, st)
+				}
+			}
+		})
+		if len(stores) == 0 {
+			continue
+		}
+		root := fn
+		for root.Parent() != nil {
+			root = root.Parent()
+		}
+		if strings.HasPrefix(c.PkgOf(root), "cli") || strings.HasPrefix(c.PkgOf(root), "examples") {
+			continue
+		}
+		key := c.FuncKey(fn)
+		isStore := map[ssa.Instruction]int{}
+		for i, st := range stores {
+			isStore[st] = i
+		}
+		bad := map[int]string{}
+		o := &PathOracle{}
+		o.NonNilCall = func(call *ssa.Call, idx int) bool {
+			if idx > 0 {
+				return false
+			}
+			return localNonNil(call, 0)
+		}
+		o.Visit = func(st *PState, in ssa.Instruction) {
+			i, ok := isStore[in]
+			if !ok {
+				return
+			}
+			v := st.canon(in.(*ssa.Store).Val)
+			good := false
+			switch st.Get(v, o) {
+			case AvNonNil:
+				good = true
+			case AvNil:
+			default:
+				switch x := v.(type) {
+				case *ssa.Extract:
+					if ta, isTA := x.Tuple.(*ssa.TypeAssert); isTA && x.Index == 0 {
+						// the value of a comma-ok assertion on the branch where it succeeded
+						for _, ref := range *ta.Referrers() {
+							if e2, isE := ref.(*ssa.Extract); isE && e2.Index == 1 && st.Get(e2, o) == AvNonNil {
+								good = localNonNil(ta.X, 0) || st.Get(ta.X, o) == AvNonNil
+							}
+						}
+					}
+				case *ssa.TypeAssert:
+					good = !x.CommaOk && (localNonNil(x.X, 0) || st.Get(x.X, o) == AvNonNil)
+				default:
+					good = localNonNil(v, 0)
+				}
+			}
+			if !good {
+				if _, dup := bad[i]; !dup {
+					bad[i] = accessPath(in.(*ssa.Store).Val)
+				}
+			}
+		}
+		if !ExplorePaths(fn, o) {
+			r.Undecide("R06-embednil: path exploration of %s exceeded its state bound", key)
+			continue
+		}
+		ord := newOrdinals()
+		for i, st := range stores {
+			n++
+			fa := st.Addr.(*ssa.FieldAddr)
+			site := ord.key(key, "embednil", typeShort(derefType(fa.X.Type()))+"."+fieldName(derefType(fa.X.Type()), fa.Field))
+			pos := c.Pos(c.InstrPos(st))
+			if why, isBad := bad[i]; isBad {
+				r.Obligations++
+				r.Instance("R06-embednil", site, pos, "finding", "may store nil: "+why, true)
+				r.Report(Finding{Rule: "R06-embednil", Site: site, Pos: pos,
+					Msg: fmt.Sprintf("%s: the embedded error pointer %s.%s can be nil on some path (%s): Error() and every promoted field access on the resulting error value dereference it — the host process panics when the error is reported", key, typeShort(derefType(fa.X.Type())), fieldName(derefType(fa.X.Type()), fa.Field), why)})
+			} else {
+				r.Obligations++
+				r.Discharged++
+				r.Instance("R06-embednil", site, pos, "discharged", "non-nil on every path (allocation, successful assertion, non-nil callee result, or another embedded error pointer)", true)
+			}
+		}
+	}
+	r.Floor("R06-embednil", n, 2)
 }
